@@ -86,14 +86,15 @@ Fixpoint find_sub (pat v : str) : option nat :=
     SIGN and U+0130, which are covered by the correspondence stream) *)
 Definition lower (c : N) : N := if N.leb 65%N c && N.leb c 90%N then N.add c 32%N else c.
 
-(** [pat.compare_no_case(v) == CompareResult::Ok]:  no position of [zip pat v] differs
-    ignoring case, and [pat] is at least as long as [v] *)
+(** [pat.compare_no_case(v) == CompareResult::Ok && pat.input_len() == v.input_len()]:  no
+    position of [zip pat v] differs ignoring case, and the lengths agree (byte lengths in the
+    Rust; equal to character lengths here because every matched character is ASCII) *)
 Fixpoint ci_zip_eq (pat v : str) : bool :=
   match pat, v with
   | x :: p', y :: v' => N.eqb (lower x) (lower y) && ci_zip_eq p' v'
   | _, _ => true
   end.
-Definition ci_reject (pat v : str) : bool := ci_zip_eq pat v && Nat.leb (length v) (length pat).
+Definition ci_reject (pat v : str) : bool := ci_zip_eq pat v && Nat.eqb (length v) (length pat).
 
 (** ** loops *)
 Fixpoint many_loop (k : nat) (p : str -> res (tree * str)) (s : str) (acc : list tree)
